@@ -32,7 +32,7 @@ LEVEL_NOTE = ("Assumed: numpy array allocation/copy semantics (np.array copies, 
               "np.concatenate allocates), np.interp = piecewise linear on non-decreasing grids, CPython "
               "binary-operator dispatch and copy.deepcopy of lists of numbers/functions.  Signal.resample, "
               "envelope, spectrum and FFT filtering of sampled signals (C05) are outside the model; "
-              "function-backed signals are evaluated for a pool of six functions and scalar-gain filters.  "
+              "function-backed signals are evaluated for a pool of nine functions (four of them accept scalar times only and raise TypeError / ValueError on arrays, so that the one-at-a-time fallback of FunctionSignal.values is exercised) and scalar-gain filters.  "
               "Arrays are float64 (integer dtype arrays make `*=`/`+=` with a float raise and are excluded).  "
               "No theorem is partial.")
 EXTRACTORS = []
@@ -87,6 +87,19 @@ def env():
             raise TypeError("scalar only")
         return 1.0 if t >= 0 else 0.0
 
+    import math
+
+    def f6(t):  # scalar only through math.*: TypeError ("only length-1 arrays can be converted") on arrays
+        return math.fabs(t) + 2 * t
+
+    def f7(t):  # scalar only through a branch: ValueError ("truth value of an array is ambiguous") on arrays
+        if t < 0:
+            return -2 * t
+        return t * t
+
+    def f8(t):  # scalar only, branch on the sign of t
+        return 3 * t + 1 if t >= 0 else 1 - t
+
     def g0(f):
         return 0.5 * np.ones(len(f))
 
@@ -101,7 +114,7 @@ def env():
             raise ValueError("scalar only")
         return 1.0
     _cache.update(np=np, S=S, UserSig=UserSig, UserFunc=UserFunc,
-                  fns=[f0, f1, f2, f3, f4, f5], gains=[g0, g1, g2, g3],
+                  fns=[f0, f1, f2, f3, f4, f5, f6, f7, f8], gains=[g0, g1, g2, g3],
                   gainv=[0.5, 2.0, -1.0, 1.0])
     _cache["clsname"] = {S.Signal: "signal", S.EmptySignal: "empty", S.FunctionSignal: "func",
                          S.GaussianNoise: "gauss", UserSig: "userSig", UserFunc: "userFunc"}
@@ -437,7 +450,7 @@ def gen_history(run, im, nsteps):
         elif r < 0.6:
             do(("mkEmpty", t, vt))
         else:
-            do(("mkFunc", rng.choice(["func", "func", "userFunc"]), t, rng.randrange(6), vt))
+            do(("mkFunc", rng.choice(["func", "func", "userFunc"]), t, rng.choice([0, 1, 2, 3, 4, 5, 5, 6, 6, 7, 7, 8, 8]), vt))
 
     for _ in range(rng.choice([2, 3, 3, 4])):
         new_signal()
@@ -480,7 +493,13 @@ def gen_history(run, im, nsteps):
             g = [float(x) for x in im.objs[k].times]
             do(("withTimes", k, ext(regrid(rng, g))))
         elif r < 0.90:
-            do(("shift", k, rng.choice([0.25, -0.5, 1.0, 2.0, -3.0, 0.75])))
+            d = rng.choice([0.25, -0.5, 1.0, 2.0, -3.0, 0.75])
+            # the model shifts exactly; only shift grids on which the float addition is exact too (grids whose
+            # end points were moved by one ulp, or linspace grids, may round)
+            if all(Fraction(float(t)) + Fraction(d) == Fraction(float(t + d)) for t in im.objs[k].times):
+                do(("shift", k, d))
+            else:
+                run.count("shift_skipped_inexact_grid")
         elif r < 0.94:
             # mixed history: a FILTERED (and possibly buffered) function-backed signal combined with a sampled
             # signal on the same grid, in both operand orders, then scaled and re-gridded
@@ -758,7 +777,8 @@ def fn_direct(s, times):
         code = E["fns"].index(f)
         for i, t in enumerate(times):
             u = Fraction(float(t)) - Fraction(float(t0))
-            v = [u, u * u, Fraction(1), 2 * u + 1, abs(u), Fraction(1 if u >= 0 else 0)][code]
+            v = [u, u * u, Fraction(1), 2 * u + 1, abs(u), Fraction(1 if u >= 0 else 0),
+                 abs(u) + 2 * u, (-2 * u if u < 0 else u * u), (3 * u + 1 if u >= 0 else 1 - u)][code]
             tot[i] += v * Fraction(float(fac)) * g
     return tot
 
@@ -779,6 +799,16 @@ def oracle_step(run, im, op, rep, before, hist):
         v = im.values_of(s)
         if v != "raise" and len(v) != len(s.times):
             fail.append("object %d has %d values for %d times" % (j, len(v), len(s.times)))
+    # 1b. a function-backed signal always reports the direct evaluation of its definition on its own times
+    #     (Σ factor·gains·f(t − t0); vectorised and scalar-only functions alike)
+    for j, s in enumerate(im.objs):
+        if isinstance(s, S.FunctionSignal):
+            v = im.values_of(s)
+            if v != "raise":
+                want = fn_direct(s, list(s.times))
+                if not all(near(x, w) for x, w in zip(v, want)):
+                    fail.append("function-backed object %d reports %s, its definition evaluates to %s"
+                                % (j, v, [float(w) for w in want]))
     after = deep_state(im)
     # 2. operands / arguments untouched by non-in-place operations, refusals change nothing
     if not inplace or rep in ("errTimes", "errTypes", "typeError"):
